@@ -424,6 +424,59 @@ func init() {
 		l.p("/-- `mergeDescs` reads the live offset once per descriptor, stats the file again (conditionally) after that read")
 		l.p("and refreshes `LastSeenSize` from that stat before it decides (fix f247e22) -/")
 		l.p("def mergeRestatsAfterOffset : Bool := %s", leanBool(restat))
+		// --- fix 5ccf34b: between the parser's open of the path and the start of the worker's goroutine the file is
+		//     identified again (utils.GetFileId) and compared with the descriptor's id; a difference ends the start
+		//     (guard whose body returns). Read from runWorker with its same-package callees inlined, so the check may
+		//     live in newWorkerConfig, in runWorker itself or in a helper of either.
+		checksId := false
+		if fd := sp.method("Scanner", "runWorker"); fd != nil {
+			evs := sp.flatten(fd, 3)
+			openAt, runAt := -1, -1
+			for i, e := range evs {
+				if e.kind == "call" && e.name == "NewParser" && openAt < 0 {
+					openAt = i
+				}
+				if e.kind == "call" && e.name == "run" && runAt < 0 {
+					for _, a := range e.anc {
+						if _, ok := a.(*ast.GoStmt); ok {
+							runAt = i
+						}
+					}
+				}
+			}
+			if openAt < 0 {
+				problem("scanner.Scanner.runWorker: the open of the file (parser.NewParser) not found in runWorker and its callees")
+			} else if runAt < openAt {
+				problem("scanner.Scanner.runWorker: no goroutine calling the worker's run after the open found")
+			} else {
+				for i := openAt + 1; i < runAt && !checksId; i++ {
+					e := evs[i]
+					if e.kind != "call" || e.name != "GetFileId" {
+						continue
+					}
+					helper := ""
+					if e.fn != nil {
+						helper = e.fn.Name.Name
+					}
+					for j := i + 1; j < runAt; j++ {
+						g := evs[j]
+						if g.kind != "guard" || g.name != "return" {
+							continue
+						}
+						// the guard's condition holds the comparison itself or calls the helper that makes it
+						direct := flowCallsNamed(g.node, "GetFileId")
+						via := helper != "" && helper != "runWorker" && helper != "newWorkerConfig" && flowCallsNamed(g.node, helper)
+						if (direct && flowSelects(g.node, "Id")) || (via && flowSelects(e.fn.Body, "Id")) {
+							checksId = true
+							break
+						}
+					}
+				}
+			}
+		}
+		l.p("/-- between the parser's open of the path and the start of the worker the file under the name is identified again")
+		l.p("(`utils.GetFileId`) and compared with the descriptor's `Id`; if they differ no worker is started (fix 5ccf34b) -/")
+		l.p("def workerOpenChecksFileId : Bool := %s", leanBool(checksId))
 		// --- fix e59ee79: the state file is written aside and renamed over (storage.fileStorage.WriteData) ----------------
 		atomicState := false
 		stp := loadFlowPkg("pkg/storage")
@@ -450,6 +503,18 @@ func init() {
 		l.p("def stateFileReplacedAtomically : Bool := %s", leanBool(atomicState))
 		l.write()
 	}
+}
+
+// flowSelects: does the node contain a selector expression x.<sel>
+func flowSelects(n ast.Node, sel string) bool {
+	found := false
+	ast.Inspect(n, func(m ast.Node) bool {
+		if s, ok := m.(*ast.SelectorExpr); ok && s.Sel.Name == sel {
+			found = true
+		}
+		return true
+	})
+	return found
 }
 
 func flowHasSuffix(s, suf string) bool { return len(s) >= len(suf) && s[len(s)-len(suf):] == suf }
